@@ -27,7 +27,14 @@ fn main() {
     let cases: u64 = arg(&args, "--cases").map(|s| s.parse().unwrap()).unwrap_or(100);
     let out = arg(&args, "--out").unwrap_or("trace.txt").to_string();
     // panics inside the code under test are expected observations, not noise
-    std::panic::set_hook(Box::new(|_| {}));
+    std::panic::set_hook(Box::new(|info| {
+        let th = std::thread::current();
+        let msg = format!("thread '{}': {}", th.name().unwrap_or("?"), info).replace('\n', " ");
+        if let Ok(mut g) = sched::LAST_PANIC.lock() {
+            *g = msg;
+        }
+        sched::PANICS.fetch_add(1, std::sync::atomic::Ordering::SeqCst);
+    }));
     let mut rng = Rng::new(seed.wrapping_mul(0x2545F4914F6CDD1D) ^ fnv(&suite));
     let mut t = Trace::create(&out);
     let mut extra = String::new();
